@@ -45,7 +45,8 @@ theorem pad_noop (i : Inst) (h00 : i.D 0 0 = 0) {as : List Nat} {s : State}
     have hl2 : (as ++ [0]).length ≠ 1 := by
       have : (as ++ [0]).length = as.length + 1 := by simp
       omega
-    simp only [reward, hl1, hl2, if_false]
+    rw [reward_eq, reward_eq]
+    simp only [hl1, hl2, if_false]
     rw [gatherSum_append, gatherSum_zero, rollLen_eq_closedLen, rollLen_eq_closedLen]
     simp only [closedLen]
     have e : 0 :: (as ++ [0]) ++ [0] = (0 :: as ++ [0]) ++ [0] := by simp
